@@ -672,6 +672,17 @@ fn gen_sr_policy_body(r: &mut Rng) -> Vec<u8> {
     b
 }
 
+/// unassigned sub-TLV types on both sides of the one-octet / two-octet length boundary of
+/// RFC 9012 section 2 (types 0-127: one length octet, 128-255: two), appended to a
+/// non SR-policy tunnel (seed C17-7: the boundary moved by one on the way back from the API)
+fn push_boundary_sub_tlvs(r: &mut Rng, b: &mut Vec<u8>) {
+    for _ in 0..r.below(3) {
+        let t = *r.pick(&[126u8, 127, 128, 129, 200, 255]);
+        let n = r.below(6) as usize;
+        b.extend_from_slice(&sub_tlv_te(t, &r.bytes(n)));
+    }
+}
+
 fn gen_tunnel_encap(r: &mut Rng) -> GenAttr {
     match r.below(4) {
         0 | 1 => ga(
@@ -698,6 +709,7 @@ fn gen_tunnel_encap(r: &mut Rng) -> GenAttr {
             if r.bool() {
                 b.extend_from_slice(&sub_tlv_te(8, &rnd_u16(r).to_be_bytes()));
             }
+            push_boundary_sub_tlvs(r, &mut b);
             ga(
                 Attribute::TUNNEL_ENCAP,
                 tlv16(8, &b),
@@ -711,6 +723,7 @@ fn gen_tunnel_encap(r: &mut Rng) -> GenAttr {
             let mut ep = vec![0u8, 0, 0, 0, 0, 1];
             ep.extend_from_slice(&rnd_v4(r).octets());
             b.extend_from_slice(&sub_tlv_te(6, &ep));
+            push_boundary_sub_tlvs(r, &mut b);
             ga(
                 Attribute::TUNNEL_ENCAP,
                 tlv16(t, &b),
